@@ -67,6 +67,12 @@ def gen_source(rng):
     return rng.choice(SEPS) + "".join(parts)
 
 
+def far_sources():
+    """Tokens on lines and columns beyond 16 bits."""
+    return [" " * 70040 + "farcol + 1", "\n" * 70001 + "   farline;", "a " * 40000 + "\n" * 3 + "\"s\" b",
+            "\n" * 65535 + "x\n" + "y", " " * 65534 + "ab cd"]
+
+
 def positions(src):
     """(line, col) of every character of src."""
     out = []
@@ -137,6 +143,7 @@ def run(ctx):
     sources = []
     for i in range(n):
         sources.append(gen_source(ctx.rng(i)))
+    sources += far_sources()
     # single-character edits of the seed programs
     import glob
     import os
